@@ -57,6 +57,10 @@ func (sp *SAMLServiceProvider) buildLogoutResponse(statusCodeValue string, reqID
 	// Write carriage returns in text as character references so that the
 	// serialized message matches what was signed.
 	doc.WriteSettings.CanonicalText = true
+	// Likewise write tabs, line feeds and carriage returns in attribute values
+	// as character references: written literally, the recipient's XML parser
+	// normalizes them to spaces.
+	doc.WriteSettings.CanonicalAttrVal = true
 
 	// Only POST binding includes <Signature> in <AuthnRequest> (includeSig)
 	if includeSig {
